@@ -352,7 +352,8 @@ class Operation(Unit):
         bodies = [None, 'null', '5', 'true', '"x"', '"error errorMessage"', '[]', '["error", "errorMessage"]', '{}',
                   '{"error": "E"}', '{"errorMessage": "M"}', '{"error": "E", "errorMessage": "M"}',
                   '{"error": "E", "errorMessage": "M", "cause": "C"}', 'not json', '']
-        for status in (400, 401, 403, 404, 500, 503):
+        # incl. status codes no registry knows (Cloudflare's 520, 599, 299): the error still carries the NUMBER the service sent
+        for status in (400, 401, 403, 404, 500, 503, 520, 599, 299):
             for body in bodies:
                 cnt += 1
                 r = run_with_stub(self.op, status, body) or (run_with_stub(self.op, status, body, None)
@@ -371,7 +372,7 @@ class Operation(Unit):
             if rp['confirmed']:
                 fails.insert(0, dict(call=rp['call'], observed=rp['observed'], witness='two-tokens'))
         return dict(name=self.name + '.stub-grid', evaluations=cnt, failures=fails[:2],
-                    bound='6 error statuses x 15 reply bodies through a stub of requests.post' +
+                    bound='9 error statuses (incl. unregistered 520 / 599 / 299) x 15 reply bodies through a stub of requests.post' +
                           ('; join on all 3^5 presence combinations of the token fields' if self.op == 'join' else ''))
 
 
